@@ -159,7 +159,7 @@ def split_blocks(data):
     return out
 
 
-def bomb_screen(data, limit=1 << 26):
+def bomb_screen(data, limit=1 << 17):
     ''' True when a byte-string slot of some block holds an unsigned integer >= limit: the repository's
     BstrField.m2i does bytes(n), i.e. allocates n zero octets (a 9-octet item can ask for 2^64).
     The harness does not run such inputs through the real decoder (counted, reported separately). '''
